@@ -798,7 +798,7 @@ pub fn eval_vars(value: &str, context: &impl VariableMap) -> String {
     while !value.is_empty() {
         if let Some(idx) = value.find(VAR_PREFIX) {
             let (prefix, remain) = value.split_at(idx);
-            if let Some(esc_prefix) = prefix.strip_prefix('\\') {
+            if let Some(esc_prefix) = prefix.strip_suffix('\\') {
                 // Escaped '$'; ignore '\' and add '$' to result
                 result.push_str(esc_prefix);
                 result.push(VAR_PREFIX);
